@@ -137,6 +137,7 @@ Ev(e, env, st, ln, d) ==
          IN IF ra.s # "ok" THEN ra ELSE
             LET ri == Ev(e.i, env, ra.st, ln, d)
             IN IF ri.s # "ok" THEN ri ELSE IndexGet(ri.st, ra.v, ri.v, ln)
+    [] e.t = "dollar" -> UnspecR(st)   \* $n: the current packet's layers are Packet.tla's business
     [] e.t = "dot" ->     \* property access: only packet objects (not modelled here) have properties
          LET r == Ev(e.e, env, st, ln, d)
          IN IF r.s # "ok" THEN r ELSE ErrR("prop", ln, r.st)
@@ -275,6 +276,7 @@ SE(e, sc) ==
     [] e.t = "bin" -> SE(e.l, sc) \cup SE(e.r, sc)
     [] e.t = "asg" -> SE(e.e, sc) \cup SE(e.tg, sc)
     [] e.t = "idx" -> SE(e.a, sc) \cup SE(e.i, sc)
+    [] e.t = "dollar" -> {}
     [] e.t = "dot" -> SE(e.e, sc)
     [] e.t = "arr" -> UnionSeq(LAMBDA x : SE(x, sc), e.es)
     [] e.t = "map" -> UnionSeq(LAMBDA kv : SE(kv[1], sc) \cup SE(kv[2], sc), e.kvs)
